@@ -2577,6 +2577,8 @@ func (s *Server) serveConnCounted(c net.Conn, countConcurrency bool) error {
 					}
 
 					ctx.SetStatusCode(StatusExpectationFailed)
+					// Close connection since client may have already started sending body data.
+					connectionClose = true
 				}
 			}
 
@@ -2634,6 +2636,13 @@ func (s *Server) serveConnCounted(c net.Conn, countConcurrency bool) error {
 		// If a client denies a request the handler should not be called
 		if continueReadingRequest {
 			s.Handler(ctx)
+		}
+
+		if rs, ok := ctx.Request.bodyStream.(*requestStream); ok && rs.unread() {
+			// The handler left a part of the streamed request body unread.
+			// It is still in the connection and would be parsed as the next
+			// request, so close the connection after responding.
+			connectionClose = true
 		}
 
 		timeoutResponse = ctx.timeoutResponse
